@@ -62,6 +62,9 @@ Report ==
         /\ Rep("WaitBeforeRespected", WaitBeforeRespected(D, Steps, l))
         /\ Rep("WaitAfterRespected", WaitAfterRespected(D, Steps, l))
         /\ Rep("TimeoutJudged", TimeoutJudged(D, Steps, l, OpSeen))
+  /\ Rep("ExpiredFailed", ExpiredFailed(P, O, Ev, R.meta.hbThreshold))
+  /\ Rep("NeverExpireFresh", NeverExpireFresh(P, O, Ev, R.meta.hbThreshold))
+  /\ Rep("NoStuckTaskAtRest", NoStuckTaskAtRest(O))
   /\ Rep("RerunRestores", RerunRestores(P, O, Ev))
   /\ Rep("SkipApplied", SkipApplied(P, O, Ev))
   /\ \A k \in 2..l : (Steps[k].ev.kind = "op" /\ Steps[k].ev.what = "rerun" /\ Steps[k].ev.exc = "none"
